@@ -177,8 +177,54 @@ func (ex *Exec) callCommon(cc *ssa.CallCommon, in *ssa.Call, p token.Pos) *Val {
 		c.trust("mutex operations are no-ops: reasoning is sequential under the lock")
 		return nil
 	}
+	if r, ok := ex.sortSlice(callee, cc, p); ok {
+		return r
+	}
 	args := ex.argVals(cc)
 	return ex.callFunction(callee, args, binds, p)
+}
+
+// sortSlice models sort.Slice / sort.SliceStable / sort.Strings / slices.Sort: only the elements of the
+// given slice are permuted; nothing else changes (the comparator is assumed to be side-effect free).
+func (ex *Exec) sortSlice(callee *ssa.Function, cc *ssa.CallCommon, p token.Pos) (*Val, bool) {
+	c := ex.c
+	name := callee.String()
+	if o := callee.Origin(); o != nil {
+		name = o.String()
+	}
+	switch name {
+	case "sort.Slice", "sort.SliceStable", "sort.Strings", "sort.Ints", "slices.Sort", "slices.SortFunc", "slices.SortStableFunc":
+	default:
+		return nil, false
+	}
+	if len(cc.Args) == 0 {
+		return nil, false
+	}
+	var sv ssa.Value = cc.Args[0]
+	if mi, ok := sv.(*ssa.MakeInterface); ok {
+		sv = mi.X
+	}
+	sl, ok := sv.Type().Underlying().(*types.Slice)
+	if !ok {
+		return nil, false
+	}
+	s := ex.val(sv).T
+	k := c.keyElem(sl.Elem())
+	info := c.heapSorts[k]
+	h := c.heapGet(ex.st, k)
+	arrSort := ArraySort(c.idxSort(), info.elem)
+	oldArr := c.define("sort.old", Select(h, sliceArr(s), arrSort))
+	na := c.freshConst("sort.arr", arrSort)
+	if c.Mode == ArithInt {
+		// outside the slice window nothing changes; inside, every element is one of the old elements and vice versa
+		c.assume(T(SBool, "(forall ((i Int)) (! (=> (or (< i (s.off %[1]s)) (>= i (+ (s.off %[1]s) (s.len %[1]s)))) (= (select %[2]s i) (select %[3]s i))) :pattern ((select %[2]s i))))", s.S, na.S, oldArr.S))
+		c.assume(T(SBool, "(forall ((i Int)) (! (=> (and (<= (s.off %[1]s) i) (< i (+ (s.off %[1]s) (s.len %[1]s)))) (exists ((j Int)) (and (<= (s.off %[1]s) j) (< j (+ (s.off %[1]s) (s.len %[1]s))) (= (select %[2]s i) (select %[3]s j))))) :pattern ((select %[2]s i))))", s.S, na.S, oldArr.S))
+		c.assume(T(SBool, "(forall ((j Int)) (! (=> (and (<= (s.off %[1]s) j) (< j (+ (s.off %[1]s) (s.len %[1]s)))) (exists ((i Int)) (and (<= (s.off %[1]s) i) (< i (+ (s.off %[1]s) (s.len %[1]s))) (= (select %[2]s i) (select %[3]s j))))) :pattern ((select %[3]s j))))", s.S, na.S, oldArr.S))
+	}
+	c.heapSet(ex.st, k, Store(h, sliceArr(s), na))
+	c.trust("sort functions permute the elements of their slice argument and change nothing else; comparators are side-effect free")
+	_ = p
+	return nil, true
 }
 
 func (ex *Exec) argVals(cc *ssa.CallCommon) []Val {
